@@ -101,7 +101,7 @@ Theorem C13_unrepaired_refuted :
   exists s o,
     (let '(s1, o1) := h_send_unrepaired init_pst 0 true 3 10 false true 0 in
      let '(s2, o2) := h_send_unrepaired s1 0 true 2 20 false true 0 in
-     let '(s3, o3) := h_established s2 0 true 0 in (s3, o1 ++ o2 ++ o3)) = (s, o) /\
+     let '(s3, o3) := h_established s2 0 2 0 in (s3, o1 ++ o2 ++ o3)) = (s, o) /\
     In (OSent 0) o /\ dials s = [] /\ active s = [(0, 1)] /\ terms 0 o = 0%nat.
 Proof. eexists. eexists. split; [vm_compute; reflexivity|]. vm_compute. repeat split; auto. Qed.
 Print Assumptions C13_unrepaired_refuted.
@@ -110,7 +110,7 @@ Print Assumptions C13_unrepaired_refuted.
    both requests, both get their own response — supplied in the opposite order, each on its own
    carrier — and the run ends quiescent. *)
 Definition demo : list ev :=
-  [ESend 0 true 3 10; ESend 0 true 2 20; EEstablished 0 false; EOpened 0 1; EOpened 0 1;
+  [ESend 0 true 3 10; ESend 0 true 2 20; EEstablished 0 false 0; EOpened 0 1; EOpened 0 1;
    ERespond 1 3 9; ERespond 0 2 7; EInOpen 0 1; EInReq 2 4 5].
 Example demo_two_responses :
   let res := run (mkCfg None 4 16 5000) (init_pst, init_env) demo in
@@ -118,4 +118,15 @@ Example demo_two_responses :
     = [OBind 0 0; OBind 1 1; OResp 1 3 9; OResp 0 2 7; OReq 2 0 4 5] /\
   dials (fst (fst res)) = [] /\ pouts (fst (fst res)) = [] /\ futs (fst (fst res)) = [] /\
   req_chans (run_steps (mkCfg None 4 16 5000) (init_pst, init_env) demo) = [2].
+Proof. vm_compute. repeat split. Qed.
+
+(* Non-vacuity of the mixed case at connection establishment: three requests wait for the dial,
+   the connection's command channel takes two substream-open commands, the third attempt fails at
+   once; then the connection closes. Every request gets its single failure. *)
+Example demo_partial_open :
+  let res := run (mkCfg None 4 16 5000) (init_pst, init_env)
+                 [ESend 0 true 1 1; ESend 0 true 1 2; ESend 0 true 1 3; EEstablished 0 false 2; EClosed 0] in
+  filter (fun x => match x with OFail _ _ => true | _ => false end) (snd res)
+    = [OFail 2 E_SUBSTREAM; OFail 0 E_CONN_CLOSED; OFail 1 E_CONN_CLOSED] /\
+  quiescent (fst (fst res)).
 Proof. vm_compute. repeat split. Qed.
